@@ -31,20 +31,21 @@ type Scenario struct {
 	Seed  uint64   `json:"seed"`
 	Tasks [][]Call `json:"tasks"`
 
-	YieldP     float64 `json:"yield_p"`
-	MaxDelay   int     `json:"max_delay"`
-	MinChunk   int     `json:"min_chunk"`
-	MaxChunk   int     `json:"max_chunk"`
-	PoolPolicy int     `json:"pool_policy"`
-	Poison     bool    `json:"poison"`
-	Procs      int     `json:"gomaxprocs"`
-	MapPolicy  int     `json:"map_policy"`
-	SkipAlone  bool    `json:"skip_alone,omitempty"`
-	Typed      bool    `json:"typed,omitempty"`
-	CustomNF   bool    `json:"custom_nf,omitempty"`   // typed scenarios: the server has the user's own NotFound and MethodNotAllowed handlers
-	SharedResp bool    `json:"shared_resp,omitempty"` // typed scenarios: the handler hands the same response object to every request of a class
-	Override   bool    `json:"override,omitempty"`    // typed scenarios: every call overrides the server URL with one URL value shared by all calls
-	Prefix     string  `json:"prefix,omitempty"`      // typed scenarios: the server is mounted under this path prefix and the client is given the matching base URL
+	YieldP     float64  `json:"yield_p"`
+	MaxDelay   int      `json:"max_delay"`
+	MinChunk   int      `json:"min_chunk"`
+	MaxChunk   int      `json:"max_chunk"`
+	PoolPolicy int      `json:"pool_policy"`
+	Poison     bool     `json:"poison"`
+	Procs      int      `json:"gomaxprocs"`
+	MapPolicy  int      `json:"map_policy"`
+	SkipAlone  bool     `json:"skip_alone,omitempty"`
+	Typed      bool     `json:"typed,omitempty"`
+	CustomNF   bool     `json:"custom_nf,omitempty"`   // typed scenarios: the server has the user's own NotFound and MethodNotAllowed handlers
+	SharedResp bool     `json:"shared_resp,omitempty"` // typed scenarios: the handler hands the same response object to every request of a class
+	Literals   []string `json:"literals,omitempty"`    // typed scenarios: the literal segments of the package's path templates
+	Override   bool     `json:"override,omitempty"`    // typed scenarios: every call overrides the server URL with one URL value shared by all calls
+	Prefix     string   `json:"prefix,omitempty"`      // typed scenarios: the server is mounted under this path prefix and the client is given the matching base URL
 }
 
 // Result of one scenario.
@@ -168,7 +169,7 @@ func runPhase(t *testing.T, sc *Scenario, tasks [][]Call, faults, trivial bool, 
 				res.trouble = err.Error()
 				return
 			}
-			tr.Handler, client = h, &typedClients{api: cl, webhook: whc, webhooks: tp.Webhooks}
+			tr.Handler, client = h, &typedClients{api: cl, webhook: whc, webhooks: tp.Webhooks, literals: sc.Literals}
 			if f, ok := tp.WithURL.(func(context.Context, *url.URL) context.Context); ok && sc.Override {
 				if u, err := url.Parse("http://sim.test" + sc.Prefix); err == nil {
 					client.override, client.overrideText, client.withURL = u, fmt.Sprintf("%#v", *u), f
